@@ -678,6 +678,11 @@ def decode_cases(rep, rng, n_small, n_large):
         rep.count('large-%s' % label)
         schema = gen.build(t)
         check_kinds(rep, rng, mode[0], ts, t, schema, data, 'large ' + label)
+        # the same octets captured whole by an untagged ANY (the ANY decoder goes back over what it has read)
+        any_t = ('any',)
+        rep.case('large-as-any %s %s %d' % (label, ts, len(data)), nontrivial=True)
+        rep.count('large-as-any')
+        check_kinds(rep, rng, mode[0], '(any)', any_t, gen.build(any_t), data, 'large as ANY ' + label)
         if rng.random() < 0.3:
             check_kinds(rep, rng, mode[0], ts, t, schema, data[:len(data) - rng.randrange(1, 40)], 'large truncated ' + label)
 
